@@ -142,3 +142,16 @@ Proof.
 Qed.
 
 End Det.
+
+(* statements pinned in Props/C04.v *)
+Lemma band_solve_exact_or_refuses_lemma {A : Arith} (FL : FieldLaws A) (B : banded A) (b : list A) :
+  wfB B -> length b = bn B -> bm1 B <= bn B ->
+  (exists x, band_solve B b = Ok x /\ length x = bn B /\ dense_mulv B x = b) \/
+  (band_solve B b = Panic DivZero /\
+   exists auN alN indexN dN,
+     decompose_gen false B (compact B) (mat_new (bn B) (bm1 B) zero) (repeat 0 (bn B)) = Ok (auN, alN, indexN, dN) /\
+     exists i, i < bn B /\ mat_at auN (bm1 B + bm2 B + 1) i 0 = zero).
+Proof.
+  intros Hwf Hb Hm1. destruct (band_solve_total_lemma FL B b Hwf Hb Hm1) as [(x & E)|H]; [left|now right].
+  exists x. split; auto. now apply (band_solve_sound_lemma FL B b x).
+Qed.
